@@ -200,7 +200,7 @@ def u_cm2d(ctx):
     GM + "ExtendedGeneticMap.py:ExtendedGeneticMap.gdist1p", GM + "ExtendedGeneticMap.py:ExtendedGeneticMap.gdist2p",
     GM + "HaldaneMapFunction.py:HaldaneMapFunction.rprob1p", GM + "KosambiMapFunction.py:KosambiMapFunction.rprob1p"])
 def u_wrappers(ctx):
-    import importlib
+    import importlib, functools
     from pyvc import oarr, loopcut
     from pyvc.oarr import OArr, same
     from pyvc.sym import cur, fresh_int
@@ -219,18 +219,21 @@ def u_wrappers(ctx):
                     calls = []
                     me = loopcut.stub_of(cls)
 
-                    def interp_genpos(c, ph, *a, **kw):
-                        calls.append(("interp_genpos", c, ph, a, kw))
-                        me.gp = OArr.fresh("genpos", (c.shape[0],), "float64")
+                    def interp_genpos(vrnt_chrgrp, vrnt_phypos, **kw):
+                        calls.append(("interp_genpos", vrnt_chrgrp, vrnt_phypos, (), {k: v for k, v in kw.items() if v is not None and v != {}}))
+                        me.gp = OArr.fresh("genpos", (vrnt_chrgrp.shape[0],), "float64")
                         return me.gp
 
                     def gd(kind):
-                        def f(c, g, *a, **kw):
-                            calls.append((kind, c, g, a, kw))
+                        def f(vrnt_chrgrp, vrnt_genpos, **kw):
+                            calls.append((kind, vrnt_chrgrp, vrnt_genpos, (), kw))
                             me.d = OArr.fresh("gdist", (fresh_int("m", 0),), "float64")
                             return me.d
                         return f
-                    me.interp_genpos, me.gdist1g, me.gdist2g = interp_genpos, gd("gdist1g"), gd("gdist2g")
+                    # stand-ins accept exactly the calls the real methods accept (positional or by the library's keyword names)
+                    me.interp_genpos = loopcut.like(functools.partial(cls.interp_genpos, None), interp_genpos)
+                    me.gdist1g = loopcut.like(functools.partial(cls.gdist1g, None), gd("gdist1g"))
+                    me.gdist2g = loopcut.like(functools.partial(cls.gdist2g, None), gd("gdist2g"))
                     out = getattr(cls, meth)(me, chr_, phy, *win)
                     n = "%s.%s%s:" % (cname, meth, "[window]" if windowed else "")
                     e.prove(n + "positions := interp_genpos(ALL chr, ALL phys)", len(calls) >= 1 and calls[0][0] == "interp_genpos"
@@ -239,11 +242,7 @@ def u_wrappers(ctx):
                     names = ("ast", "asp") if nwin == 2 else ("rst", "rsp", "cst", "csp")
 
                     def window_of(c):
-                        pos = list(c[3]) + [None] * (nwin - len(c[3]))
-                        for k, nm in enumerate(names):
-                            if nm in c[4]:
-                                pos[k] = c[4][nm]
-                        return tuple(pos)
+                        return tuple(c[4].get(nm) for nm in names)
 
                     def same_w(a, b):
                         return (a is None and b is None) or (a is not None and b is not None and sym._t(a).eq(sym._t(b)))
@@ -266,25 +265,27 @@ def u_wrappers(ctx):
                 gm = GMap()
 
                 def mk(kind):
-                    def f(c, g, *a, **kw):
-                        calls.append((kind, c, g, a, kw))
+                    def f(**kw):
+                        vals = list(kw.values())
+                        calls.append((kind, vals[0], vals[1], (), {k: v for k, v in list(kw.items())[2:] if not isinstance(v, dict) or v}))
                         gm.d = OArr.fresh("gdist", (fresh_int("m", 0),), "float64")
                         return gm.d
                     return f
+                from pybrops.popgen.gmap.StandardGeneticMap import StandardGeneticMap as _SGM
                 for k in ("gdist1g", "gdist2g", "gdist1p", "gdist2p"):
-                    setattr(gm, k, mk(k))
+                    setattr(gm, k, loopcut.like(functools.partial(getattr(_SGM, k), None), mk(k)))
                 mf = loopcut.stub_of(MF)
 
                 def mapfn(d):
                     seen["arg"] = d
                     seen["out"] = OArr.fresh("r", d.shape, "float64")
                     return seen["out"]
-                mf.mapfn = mapfn
+                mf.mapfn = loopcut.like(functools.partial(MF.mapfn, None), mapfn)
                 out = getattr(MF, meth)(mf, gm, chr_, pos)
                 n = "%sMapFunction.%s:" % (which, meth)
                 e.prove(n + "distance := gmap.%s(chr, positions), whole arrays, no window" % callee,
                         len(calls) == 1 and calls[0][0] == callee and same(calls[0][1], chr_) and same(calls[0][2], pos)
-                        and all(a is None for a in calls[0][3]) and all(v is None for v in calls[0][4].values()))
+                        and all(v is None for v in calls[0][4].values()))
                 e.prove(n + "returns mapfn(that distance)", len(calls) == 1 and seen.get("arg") is gm.d and same(out, seen.get("out")))
         return "ok"
     with oarr.patched_numpy(), loopcut.patched_modules(["pybrops.*"]):
@@ -293,3 +294,47 @@ def u_wrappers(ctx):
     raised = [o for o in outs if isinstance(o, sym.Raised)]
     ctx.record("wrappers:noraise", not raised, kind="noraise", detail="; ".join(repr(r) + r.tb[-700:] for r in raised[:1]))
     ctx.record("wrappers:cover:returns", any(o == "ok" for o in outs), kind="cover")
+
+
+# ---------------------------------------------------------------------------
+# pairwise distances with row / column windows: the window is the corresponding block of the full matrix
+@unit(P, "B[gdist2g(rows, cols) == |g_i - g_j| within a chromosome, +inf across chromosomes, for every row / column window]", "B", bounded=True,
+      targets=[GM + "StandardGeneticMap.py:StandardGeneticMap.gdist2g", GM + "ExtendedGeneticMap.py:ExtendedGeneticMap.gdist2g"],
+      note="bounded(shape): <=5 markers on 1-3 chromosomes (concrete chromosome labels), every window pair from a small grid incl. "
+           "off-diagonal and rectangular ones; genetic positions symbolic reals")
+def u_b_gdist2g(ctx):
+    import importlib
+    from pyvc import barr, modeb
+    from pyvc.sym import _t
+    R = lambda x: (z3.ToReal(_t(x)) if _t(x).sort() == z3.IntSort() else _t(x))
+
+    def body(e, shape, tag):
+        cname, chrs = shape
+        cls = getattr(importlib.import_module("pybrops.popgen.gmap." + cname), cname)
+        me = object.__new__(cls)
+        n = len(chrs)
+        chr_ = numpy.array(chrs, dtype="int64")
+        g = barr.fresh("g", (n,), "float64")
+        fr = modeb.Frame(g=g)
+        wins = [(None, None), (0, 2), (1, 3), (1, n), (n - 2, n), (1, 2)]
+        span = lambda w: len(list(range(n))[w[0]:w[1]])
+        # square tiles first (a routine that only fails on rectangular tiles still gets its square tiles checked)
+        for rw, cw in sorted(((r, c) for r in wins for c in wins), key=lambda rc: span(rc[0]) != span(rc[1])):
+            if True:
+                out = cls.gdist2g(me, chr_, g, rw[0], rw[1], cw[0], cw[1])
+                rows = list(range(n))[rw[0]:rw[1]]
+                cols = list(range(n))[cw[0]:cw[1]]
+                nm = "%s:rows[%s:%s],cols[%s:%s]" % (tag, rw[0], rw[1], cw[0], cw[1])
+                if tuple(out.shape) != (len(rows), len(cols)):
+                    e.prove(nm + ":shape", False)
+                    continue
+                cs = []
+                for a, i in enumerate(rows):
+                    for b, j in enumerate(cols):
+                        d = R(g[i]) - R(g[j])
+                        cs.append(R(out[a, b]) == (z3.If(d >= 0, d, -d) if chrs[i] == chrs[j] else sym.INF))
+                e.prove(nm + ":block-of-the-full-matrix", z3.And(*cs) if cs else True)
+        e.prove(tag + ":frame:positions-not-written", fr.unchanged())
+        return "ok"
+    shapes = [(c, chrs) for c in ("StandardGeneticMap", "ExtendedGeneticMap") for chrs in ((1, 1, 2, 2), (1, 2, 2, 3, 3))]
+    modeb.run_shapes(ctx, "gdist2g", shapes, body)
